@@ -356,6 +356,15 @@ class _ThreadHandle:
     def setDaemon(self, flag):
         self.daemon = flag
 
+    # added for C11: `self._connthread == current_thread()` must compare the threads, not the handles
+    def __eq__(self, other):
+        if isinstance(other, _ThreadHandle):
+            return self.ts is not None and self.ts is other.ts or self is other
+        return NotImplemented
+
+    def __hash__(self):
+        return id(self.ts) if self.ts is not None else id(self)
+
     @property
     def ident(self):
         return self.ts.index + 1 if self.ts else None
